@@ -242,7 +242,13 @@ func genSchema(t *rapid.T, allowBoolAndEnumResults bool) (string, []mdef, map[st
 	if rapid.Bool().Draw(t, "typesheader") {
 		sb.WriteString("---types---\n")
 	}
-	for _, d := range defs {
+	// one schema in three has a line of 64 KiB or more (a long documentation text) somewhere in its first half
+	longAt := -1
+	if len(defs) >= 2 && rapid.IntRange(0, 2).Draw(t, "longline") == 0 {
+		longAt = rapid.IntRange(0, len(defs)/2).Draw(t, "longat")
+		feats["line>=64KiB"] = true
+	}
+	for di, d := range defs {
 		if d.Fn && !inFn {
 			sb.WriteString("\n---functions---\n")
 			inFn = true
@@ -252,6 +258,9 @@ func genSchema(t *rapid.T, allowBoolAndEnumResults bool) (string, []mdef, map[st
 			if rapid.Bool().Draw(t, "tcomment") {
 				fmt.Fprintf(&sb, "\n// @type %s\n", commentText(t, "tc"))
 			}
+		}
+		if di == longAt {
+			d.Comment = strings.Repeat("long text ", 6600+rapid.IntRange(0, 400).Draw(t, "longlen"))
 		}
 		if d.Comment != "" {
 			switch {
